@@ -318,6 +318,37 @@ def _layers(facts, c):
                         t.point(out, want, "a [%d, %d] batch given to Dense(%d -> %d)" % (batch, width, ins, outs))
         t.close()
     c.count("Dense::forward implementations evaluated", n)
+    # Conv::forward: a single image [depth, rows, cols] gives [filters, window rows, window cols] for every geometry in which the filter fits
+    m_ = 0
+    for b in facts.fns():
+        if not (b.get("thir") and b.get("name") == "forward" and b.get("impl_trait_def") == "corgi::layer::Layer" and (b.get("impl_self") or "").endswith("::Conv")):
+            continue
+        adt = next((a for k, a in facts.adts.items() if k.endswith("::Conv")), None)
+        fields = [f_ for v in (adt or {}).get("variants", []) for f_ in v["fields"]]
+        fi = next((i for i, f_ in enumerate(fields) if f_["ty"] == ARRAY and "filter" in f_["name"]), None)
+        bi = next((i for i, f_ in enumerate(fields) if f_["ty"] == ARRAY and "bias" in f_["name"]), None)
+        si = next((i for i, f_ in enumerate(fields) if f_["ty"] == "(usize, usize)"), None)
+        m_ += 1
+        t = _Tally(c, "contract:%s" % b["def"], _where(b), "Conv::forward")
+        if fi is None or bi is None or si is None or sum(1 for f_ in fields if f_["ty"] == "(usize, usize)") != 1:
+            t.close()
+            continue
+        for d in (1, 2):
+            for r, cc in ((2, 2), (3, 3), (3, 5), (4, 4)):
+                for fr, fc in ((1, 1), (2, 2), (2, 3)):
+                    for sr, sc in ((1, 1), (2, 2), (1, 2)):
+                        for fn_ in (1, 2):
+                            if fr > r or fc > cc:
+                                continue
+                            me = []
+                            for i, f_ in enumerate(fields):
+                                me.append(SV.Arr([fn_, d, fr, fc], tracked=True) if i == fi else SV.Arr([fn_, 1, 1], tracked=True) if i == bi else (sr, sc) if i == si
+                                          else SV.NONE if f_["ty"].startswith("core::option::Option<") else SV.UNK)
+                            want = ("dims", [fn_, (r - fr) // sr + 1, (cc - fc) // sc + 1])
+                            out = SV.run(facts, b, [tuple(me), SV.Arr([d, r, cc])])
+                            t.point(out, want, "an image %s given to Conv(filters %s, stride %s)" % ([d, r, cc], [fn_, d, fr, fc], (sr, sc)))
+        t.close()
+    c.count("Conv::forward implementations evaluated", m_)
 
 
 def r55_shape_contract(facts, families=("ewise", "pointwise", "matmul", "conv", "flatten", "ctors", "layers")):
@@ -439,7 +470,7 @@ def r55_flatten(facts):
 
 
 def r55_layers(facts):
-    """SHAPE-CONTRACT (layers): Dense::forward maps a [batch, inputs] array to [batch, outputs] and refuses a batch of another width, on a finite grid"""
+    """SHAPE-CONTRACT (layers): Dense::forward maps a [batch, inputs] array to [batch, outputs] and refuses a batch of another width; Conv::forward maps an image to [filters, window rows, window cols] for every geometry in which the filter fits; on a finite grid"""
     return r55_shape_contract(facts, ("layers",))
 
 
